@@ -19,7 +19,8 @@ of Props.lean quantify over), model-internal divergences (`md`: the reconstructi
 broken) and property-level findings (`perr`: a worker executed a task other than the head of the best
 non-empty priority of the exactly known queue).
 -/
-import TboxModel.C05.Model
+import TboxModel.C05.Life
+import TboxModel.C05.Cab
 namespace Tbox.C05.Replay
 open Tbox.C05
 
@@ -29,6 +30,8 @@ inductive Api where
   | cancel (k : Nat) (r : Nat)
   | snap (thr idle doing : Nat) (undo : List Nat) (peak : Nat)
   | cleanup
+  | init (mn mx : Nat)                  -- initialize(mn, mx) accepted on the same object after cleanup() has returned
+  | forged (isCancel : Bool) (ans : Nat)  -- getTaskStatus / cancel with a token this pool never issued: status 2 = not-found, cancel 1
 deriving Repr
 
 inductive EvK where
@@ -50,17 +53,20 @@ instance : Inhabited Ev := ⟨⟨0, 0, .U⟩⟩
 
 structure R where
   s : State
-  tmap : Array (Option Nat) := Array.replicate 4096 none   -- harness task number → model task id
+  tmap : Array (Option Nat) := Array.replicate 8192 none   -- harness task number → model task id; 4096 + k = task k of the PREVIOUS lifecycle
   inCl : Bool := false            -- between cleanup()'s critical section and its return
   seenJ : List Nat := []          -- workers whose pthread_join has returned inside cleanup()
   ntc : Nat := 0                  -- threads created so far (TC events)
-  steps : List Step := []         -- executed model steps, newest first
+  steps : List LStep := []        -- executed model steps (and accepted initialize() calls), newest first
   md : List String := []          -- model-internal divergences
   perr : Option String := none    -- property-level finding
   dead : Bool := false            -- a step was not enabled: the model state is no longer meaningful
   picks : Nat := 0                -- picks confirmed against the model's pop
   answers : Nat := 0              -- status / cancel / snapshot answers confirmed exactly
   spawns : Nat := 0               -- spawn decisions confirmed
+  q : Cab.Q := {}                 -- the queue layer as the code has it (Cab.lean: token deques + cabinet + running set), run in lock-step
+  tk : List (Nat × Nat) := []     -- model task id ↦ token id of that layer
+  cabChecks : Nat := 0            -- steps on which the two layers were compared
 
 def R.div (r : R) (q : Nat) (m : String) : R := { r with md := r.md ++ [s!"@{q} {m}"] }
 def R.kill (r : R) (q : Nat) (m : String) : R := { (r.div q m) with dead := true }
@@ -78,10 +84,59 @@ def pcName : PC → String
   | .running t => s!"running {t.id}" | .postCb t => s!"postCb {t.id}" | .finishing t => s!"finishing {t.id}"
   | .exitVol b => s!"exitVol {b}" | .leaving => "leaving" | .exited => "exited"
 
+def R.tokOf (r : R) (id : Nat) : Nat := ((r.tk.find? (·.1 == id)).map (·.2)).getD 0
+
+def cabStatusNum : Status → Nat | .waiting => 0 | .executing => 1 | .notFound => 2
+
+/-- the concrete queue layer (Cab.lean) takes the step the code takes for this model step; afterwards the two layers must
+show the same sizes per level, the same cabinet size (= what `undo_tasks_cabinet.size()` feeds into the spawn and exit
+tests), the same running set size, and — for cancel / status / pop — the same answer.  `s0` = model state before the step.
+Only `q`, `tk`, `md`, `cabChecks` change. -/
+def R.syncCab (r : R) (qn : Nat) (s0 : State) (st : Step) : R :=
+  let s1 := r.s
+  let (q1, tk1, bad) : Cab.Q × List (Nat × Nat) × Option String :=
+    match st with
+    | .execute prio _ =>
+      if s1.nextTask != s0.nextTask then
+        let x := Cab.execute r.q (levelOf prio); (x.1, (s0.nextTask, x.2) :: r.tk, none)
+      else (r.q, r.tk, none)
+    | .executeF prio _ =>
+      if s1.nextTask != s0.nextTask then
+        let x := Cab.execute r.q (levelOf prio); (x.1, (s0.nextTask, x.2) :: r.tk, none)
+      else (Cab.step r.q (.executeWithdrawn (levelOf prio)), r.tk, none)
+    | .cancel id =>
+      let x := Cab.cancel r.q (r.tokOf id)
+      (x.1, r.tk, if x.2 == cancelAns s0 id then none else some s!"cancel of model task {id}: the token layer answers {x.2}, the model {cancelAns s0 id}")
+    | .status id =>
+      let a := Cab.status r.q (r.tokOf id)
+      (r.q, r.tk, if cabStatusNum a == cabStatusNum (statusOf s0 id) then none
+                  else some s!"status of model task {id}: the token layer answers {cabStatusNum a}, the model {cabStatusNum (statusOf s0 id)}")
+    | .enter _ | .reenter _ =>
+      if s1.picks.length != s0.picks.length then
+        let x := Cab.pop r.q
+        let want := s1.picks.head?.map (fun p => r.tokOf p.1.id)
+        (x.1, r.tk, if x.2 == want then none else some s!"pop: the token layer pops token {x.2}, the model the task with token {want}")
+      else (r.q, r.tk, none)
+    | .finish w =>
+      match s0.pc w with
+      | .finishing t => (Cab.finish r.q (r.tokOf t.id), r.tk, none)
+      | _ => (r.q, r.tk, none)
+    | .cleanup1 => (Cab.cleanup r.q, r.tk, none)
+    | _ => (r.q, r.tk, none)
+  let sizes := (List.range nPrio).map (fun l => (q1.deq l).length)
+  let msizes := (List.range nPrio).map (fun l => (s1.undo.filter (fun t => t.lvl == l)).length)
+  let bad := bad <|> (if sizes != msizes then some s!"deque sizes {sizes}, the model {msizes}" else none)
+    <|> (if Cab.cabSize q1 != s1.undo.length then some s!"cabinet size {Cab.cabSize q1}, the model's waiting queue {s1.undo.length}" else none)
+    <|> (if q1.doing.length != s1.doing.length then some s!"running set {q1.doing.length}, the model {s1.doing.length}" else none)
+    <|> (if q1.nullFree || q1.lost then some "free(nullptr) / lost pop in the token layer" else none)
+  match bad with
+  | some m => { r with q := q1, tk := tk1, md := r.md ++ [s!"@{qn} cabinet layer after `{stepName st}`: {m}"] }
+  | none => { r with q := q1, tk := tk1, cabChecks := r.cabChecks + 1 }
+
 /-- one model step, checked with `valid` -/
 def R.doStep (r : R) (q : Nat) (st : Step) : R :=
   if r.dead then r
-  else if valid r.s st then { r with s := step r.s st, steps := st :: r.steps }
+  else if valid r.s st then ({ r with s := step r.s st, steps := .st st :: r.steps } : R).syncCab q r.s st
   else r.kill q s!"model step `{stepName st}` is not enabled here"
 
 def statusName : Status → String | .waiting => "waiting" | .executing => "executing" | .notFound => "not-found"
@@ -118,118 +173,193 @@ def R.checkCreated (r : R) (q : Nat) : R :=
   else if r.s.nW > r.ntc then r.kill q s!"spawn rule: the model has created {r.s.nW} worker threads, the implementation {r.ntc}"
   else r
 
+/-- an accepted `initialize(mn, mx)` after cleanup() has returned: checked with `validL`; the task table of the finished
+lifecycle moves to 4096.. (stale tokens stay addressable), cleanup()'s bookkeeping is reset -/
+def R.doInit (r : R) (q mn mx : Nat) : R :=
+  if r.dead then r
+  else if validL r.s (.init mn mx) then
+    { r with s := reinit r.s mn mx, steps := .init mn mx :: r.steps, inCl := false, seenJ := [],
+             tmap := (Array.replicate 4096 none) ++ (r.tmap.extract 0 4096) }
+  else r.kill q s!"initialize({mn},{mx}) accepted by the implementation, the model refuses it here (cleanup() has not returned, or bad arguments)"
+
+/-! One function per event kind (`R.event` only dispatches), so that each has its own small soundness lemma. -/
+
+def R.evTS (r : R) (e : Ev) : R :=
+  if e.thr == 0 || e.thr - 1 < r.s.nW then r else r.kill e.q s!"thread {e.thr} started but the model has only {r.s.nW} workers"
+
+def R.evTC (r : R) (e : Ev) (child : Nat) : R :=
+  let r := { r with ntc := r.ntc + 1 }
+  if child != r.ntc then r.kill e.q s!"thread numbering: created thread {child}, expected {r.ntc}"
+  else if child > r.s.nW then r.kill e.q s!"spawn rule: the implementation created worker thread {child}, the model has only {r.s.nW} workers here"
+  else { r with spawns := r.spawns + 1 }
+
+def R.evL (r : R) (e : Ev) : R :=
+  let q := e.q
+  let w := e.thr - 1
+  match r.s.pc w with
+  | .start => r.doStep q (.enter w)
+  | .postCb t =>
+    if t.cb then r.kill q s!"worker {w} finished task {t.id} without posting its completion callback to the loop"
+    else (r.doStep q (.postCb w)).doStep q (.finish w)
+  | .finishing _ => r.doStep q (.finish w)
+  | p => r.kill q s!"worker {w} locked the pool mutex, model state {pcName p}"
+
+def R.evU (r : R) (e : Ev) : R :=
+  match r.s.pc (e.thr - 1) with
+  | .aboutToWait => r.kill e.q s!"worker {e.thr - 1} left its critical section, the model's worker goes to wait"
+  | _ => r
+
+def R.evCW (r : R) (e : Ev) : R :=
+  match r.s.pc (e.thr - 1) with
+  | .aboutToWait => r.doStep e.q (.block (e.thr - 1))
+  | p => r.kill e.q s!"worker {e.thr - 1} entered the wait, model state {pcName p}"
+
+def R.evCX (r : R) (e : Ev) : R :=
+  let w := e.thr - 1
+  match r.s.pc w with
+  | .waiting => (r.doStep e.q (.wake w)).doStep e.q (.reenter w)
+  | .woken => r.doStep e.q (.reenter w)
+  | p => r.kill e.q s!"worker {w} returned from the wait, model state {pcName p}"
+
+def R.evLL (r : R) (e : Ev) : R :=
+  let w := e.thr - 1
+  match r.s.pc w with
+  | .postCb t =>
+    if t.cb then r.doStep e.q (.postCb w) else r.kill e.q s!"worker {w} posted to the loop after task {t.id}, which has no completion callback"
+  | .exitVol _ => r.doStep e.q (.selfRemove w)
+  | .finishing _ | .leaving => r
+  | p => r.kill e.q s!"worker {w} posted to the loop, model state {pcName p}"
+
+def R.evBS (r : R) (e : Ev) (k : Nat) : R :=
+  let q := e.q
+  let w := e.thr - 1
+  match r.s.pc w with
+  | .running t =>
+    if r.tmap.getD k none == some t.id then { (r.doStep q (.runBody w)) with picks := r.picks + 1 }
+    else
+      let lvls := r.s.picks.head?.map (fun p => p.2.map (fun x => (x.id, x.lvl)))
+      { (r.kill q s!"pick order: worker {w} executed task #{k}, the model popped task id {t.id}") with
+        perr := some s!"pick order (step level): worker thread {e.thr} started the body of task #{k} (model id {r.tmap.getD k none}) at {q}, but the head of the best non-empty priority of the waiting queue at its pop was model id {t.id} (level {t.lvl}); queue (id, level) at the pop: {lvls}" }
+  | p => r.kill q s!"worker {w} started the body of task #{k}, model state {pcName p}"
+
+def R.evCB (r : R) (e : Ev) (k : Nat) : R :=
+  match r.tmap.getD k none with
+  | some id => r.loopUntil e.q (.cb id) (r.s.loopQ.length + 1)
+  | none => r.kill e.q s!"completion callback of task #{k}, whose execute() was not replayed"
+
+def R.evJ (r : R) (e : Ev) (child : Nat) : R :=
+  let c := child - 1
+  if r.inCl then ({ r with seenJ := c :: r.seenJ }).tryJoins e.q (r.s.nW + 1)
+  else r.loopUntil e.q (.joinW c) (r.s.loopQ.length + 1)
+
+def R.evTE (r : R) (e : Ev) : R :=
+  let w := e.thr - 1
+  match r.s.pc w with
+  | .leaving => r.doStep e.q (.threadEnd w)
+  | .exited => r
+  | p => r.kill e.q s!"thread function of worker {w} returned, model state {pcName p}"
+
+def R.evNO (r : R) (e : Ev) (rest : List Ev) : R :=
+  let q := e.q
+  if r.s.pend == 0 then r.kill q "notify_one without a pending execute()" else
+  match rest.find? (fun x => match x.k with | .CX => x.thr > 0 && r.s.pc (x.thr - 1) == .waiting | _ => false) with
+  | some x => r.doStep q (.notifyOne (some (x.thr - 1)))
+  | none =>
+    match (List.range r.s.nW).find? (fun i => r.s.pc i == .waiting) with
+    | some i => r.doStep q (.notifyOne (some i))
+    | none => r.doStep q (.notifyOne none)
+
+def R.evNA (r : R) (e : Ev) : R := r.doStep e.q .notifyAll
+
+def R.evCleanupRet (r : R) (e : Ev) : R :=
+  if !r.inCl then r else
+  let r := r.tryJoins e.q (r.s.nW + 1)
+  { (r.doStep e.q .cleanupRet) with inCl := false }
+
+def R.cmpAccept (r : R) (q : Nat) (accepted tok : Bool) : R :=
+  if accepted != tok then
+    r.div q s!"execute(): the implementation {if tok then "returned a token" else "returned a null token"}, the model {if accepted then "accepts the task" else "withdraws the task (no worker exists and none could be created)"}"
+  else r
+
+def R.noteToken (r : R) (k id : Nat) (b : Bool) : R := if b then { r with tmap := r.tmap.set! k (some id) } else r
+
+def R.apiExec (r : R) (q k : Nat) (prio : Int) (cb failed tok : Bool) : R :=
+  let r1 := r.doStep q (if failed then .executeF prio cb else .execute prio cb)
+  let accepted := r1.s.nextTask != r.s.nextTask
+  (r1.cmpAccept q accepted tok).noteToken k r.s.nextTask (accepted && tok && decide (k < 4096))
+
+def R.apiStat (r : R) (q k : Nat) (ans : Status) : R :=
+  match r.tmap.getD k none with
+  | none => r.kill q s!"getTaskStatus of task #{k}, whose execute() was not replayed"
+  | some id =>
+    let m := statusOf r.s id
+    let r := if m == ans then { r with answers := r.answers + 1 }
+             else r.div q s!"getTaskStatus(#{k}) answered {statusName ans}, the model {statusName m}"
+    r.doStep q (.status id)
+
+def R.apiCancel (r : R) (q k a : Nat) : R :=
+  match r.tmap.getD k none with
+  | none => r.kill q s!"cancel of task #{k}, whose execute() was not replayed"
+  | some id =>
+    let m := cancelAns r.s id
+    let r := if m == a then { r with answers := r.answers + 1 }
+             else r.div q s!"cancel(#{k}) answered {a}, the model {m}"
+    r.doStep q (.cancel id)
+
+def R.apiSnap (r : R) (q thr idle doing : Nat) (undo : List Nat) (peak : Nat) : R :=
+  let mu := (List.range nPrio).map (undoAt r.s)
+  let r := if thr == r.s.cab.length && idle == r.s.idle && doing == r.s.doing.length && undo == mu && peak == r.s.peak
+           then { r with answers := r.answers + 1 }
+           else r.div q s!"snapshot: threads={thr} idle={idle} doing={doing} waiting={undo} peak={peak}, the model threads={r.s.cab.length} idle={r.s.idle} doing={r.s.doing.length} waiting={mu} peak={r.s.peak}"
+  r.doStep q .snapshot
+
+def R.apiCleanup (r : R) (q : Nat) : R :=
+  let r := (r.doStep q .cleanup1).doStep q .setStop
+  { r with inCl := true }
+
+/-- a token this pool never issued (id beyond every id it has handed out, a null id, the id of a live task at another
+position, a token of ANOTHER pool / of a WorkThread): the model's answer for an id it has not issued is not-found / 1
+(`C05_unissued_token`) and the call is no step of the model — it must change nothing, which the rest of the replay checks -/
+def R.cmpForged (r : R) (q : Nat) (isCancel : Bool) (m ans : Nat) : R :=
+  if m == ans then { r with answers := r.answers + 1 }
+  else r.div q s!"forged token: {if isCancel then "cancel" else "getTaskStatus"} answered {ans}, the model {m}"
+
+def R.apiForged (r : R) (q : Nat) (isCancel : Bool) (ans : Nat) : R :=
+  r.cmpForged q isCancel
+    (if isCancel then cancelAns r.s r.s.nextTask else (match statusOf r.s r.s.nextTask with | .waiting => 0 | .executing => 1 | .notFound => 2)) ans
+
+def R.evApi (r : R) (e : Ev) (a : Api) : R :=
+  let q := e.q
+  let r := r.checkCreated q
+  if r.dead then r else
+  match a with
+  | .exec k prio cb failed tok => r.apiExec q k prio cb failed tok
+  | .stat k ans => r.apiStat q k ans
+  | .cancel k a => r.apiCancel q k a
+  | .snap thr idle doing undo peak => r.apiSnap q thr idle doing undo peak
+  | .cleanup => r.apiCleanup q
+  | .init mn mx => r.doInit q mn mx
+  | .forged c a => r.apiForged q c a
+
 /-- process one event; `rest` = the events after it (look-ahead for notify_one only) -/
 def R.event (r : R) (e : Ev) (rest : List Ev) : R :=
   if r.dead then r else
-  let q := e.q
-  let w := e.thr - 1
   match e.k with
-  | .TS => if e.thr == 0 || w < r.s.nW then r else r.kill q s!"thread {e.thr} started but the model has only {r.s.nW} workers"
-  | .TC child =>
-    let r := { r with ntc := r.ntc + 1 }
-    if child != r.ntc then r.kill q s!"thread numbering: created thread {child}, expected {r.ntc}"
-    else if child > r.s.nW then r.kill q s!"spawn rule: the implementation created worker thread {child}, the model has only {r.s.nW} workers here"
-    else { r with spawns := r.spawns + 1 }
-  | .L =>
-    match r.s.pc w with
-    | .start => r.doStep q (.enter w)
-    | .postCb t =>
-      if t.cb then r.kill q s!"worker {w} finished task {t.id} without posting its completion callback to the loop"
-      else (r.doStep q (.postCb w)).doStep q (.finish w)
-    | .finishing _ => r.doStep q (.finish w)
-    | p => r.kill q s!"worker {w} locked the pool mutex, model state {pcName p}"
-  | .U =>
-    match r.s.pc w with
-    | .aboutToWait => r.kill q s!"worker {w} left its critical section, the model's worker goes to wait"
-    | _ => r
-  | .CW =>
-    match r.s.pc w with
-    | .aboutToWait => r.doStep q (.block w)
-    | p => r.kill q s!"worker {w} entered the wait, model state {pcName p}"
-  | .CX =>
-    match r.s.pc w with
-    | .waiting => (r.doStep q (.wake w)).doStep q (.reenter w)
-    | .woken => r.doStep q (.reenter w)
-    | p => r.kill q s!"worker {w} returned from the wait, model state {pcName p}"
-  | .LL =>
-    match r.s.pc w with
-    | .postCb t =>
-      if t.cb then r.doStep q (.postCb w) else r.kill q s!"worker {w} posted to the loop after task {t.id}, which has no completion callback"
-    | .exitVol _ => r.doStep q (.selfRemove w)
-    | .finishing _ | .leaving => r
-    | p => r.kill q s!"worker {w} posted to the loop, model state {pcName p}"
-  | .BS k =>
-    match r.s.pc w with
-    | .running t =>
-      if r.tmap.getD k none == some t.id then { (r.doStep q (.runBody w)) with picks := r.picks + 1 }
-      else
-        let lvls := r.s.picks.head?.map (fun p => p.2.map (fun x => (x.id, x.lvl)))
-        { (r.kill q s!"pick order: worker {w} executed task #{k}, the model popped task id {t.id}") with
-          perr := some s!"pick order (step level): worker thread {e.thr} started the body of task #{k} (model id {r.tmap.getD k none}) at {q}, but the head of the best non-empty priority of the waiting queue at its pop was model id {t.id} (level {t.lvl}); queue (id, level) at the pop: {lvls}" }
-    | p => r.kill q s!"worker {w} started the body of task #{k}, model state {pcName p}"
-  | .CB k =>
-    match r.tmap.getD k none with
-    | some id => r.loopUntil q (.cb id) (r.s.loopQ.length + 1)
-    | none => r.kill q s!"completion callback of task #{k}, whose execute() was not replayed"
-  | .J child =>
-    let c := child - 1
-    if r.inCl then ({ r with seenJ := c :: r.seenJ }).tryJoins q (r.s.nW + 1)
-    else r.loopUntil q (.joinW c) (r.s.loopQ.length + 1)
-  | .TE =>
-    match r.s.pc w with
-    | .leaving => r.doStep q (.threadEnd w)
-    | .exited => r
-    | p => r.kill q s!"thread function of worker {w} returned, model state {pcName p}"
-  | .NO =>
-    if r.s.pend == 0 then r.kill q "notify_one without a pending execute()" else
-    match rest.find? (fun x => match x.k with | .CX => x.thr > 0 && r.s.pc (x.thr - 1) == .waiting | _ => false) with
-    | some x => r.doStep q (.notifyOne (some (x.thr - 1)))
-    | none =>
-      match (List.range r.s.nW).find? (fun i => r.s.pc i == .waiting) with
-      | some i => r.doStep q (.notifyOne (some i))
-      | none => r.doStep q (.notifyOne none)
-  | .NA => r.doStep q .notifyAll
-  | .cleanupRet =>
-    if !r.inCl then r else
-    let r := r.tryJoins q (r.s.nW + 1)
-    { (r.doStep q .cleanupRet) with inCl := false }
-  | .api a =>
-    let r := r.checkCreated q
-    if r.dead then r else
-    match a with
-    | .exec k prio cb failed tok =>
-      let id := r.s.nextTask
-      let r := r.doStep q (if failed then .executeF prio cb else .execute prio cb)
-      let accepted := r.s.nextTask != id
-      let r := if accepted != tok then
-                 r.div q s!"execute(): the implementation {if tok then "returned a token" else "returned a null token"}, the model {if accepted then "accepts the task" else "withdraws the task (no worker exists and none could be created)"}"
-               else r
-      if accepted && tok && k < r.tmap.size then { r with tmap := r.tmap.set! k (some id) } else r
-    | .stat k ans =>
-      match r.tmap.getD k none with
-      | none => r.kill q s!"getTaskStatus of task #{k}, whose execute() was not replayed"
-      | some id =>
-        let m := statusOf r.s id
-        let r := if m == ans then { r with answers := r.answers + 1 }
-                 else r.div q s!"getTaskStatus(#{k}) answered {statusName ans}, the model {statusName m}"
-        r.doStep q (.status id)
-    | .cancel k a =>
-      match r.tmap.getD k none with
-      | none => r.kill q s!"cancel of task #{k}, whose execute() was not replayed"
-      | some id =>
-        let m := cancelAns r.s id
-        let r := if m == a then { r with answers := r.answers + 1 }
-                 else r.div q s!"cancel(#{k}) answered {a}, the model {m}"
-        r.doStep q (.cancel id)
-    | .snap thr idle doing undo peak =>
-      let mu := (List.range nPrio).map (undoAt r.s)
-      let r := if thr == r.s.cab.length && idle == r.s.idle && doing == r.s.doing.length && undo == mu && peak == r.s.peak
-               then { r with answers := r.answers + 1 }
-               else r.div q s!"snapshot: threads={thr} idle={idle} doing={doing} waiting={undo} peak={peak}, the model threads={r.s.cab.length} idle={r.s.idle} doing={r.s.doing.length} waiting={mu} peak={r.s.peak}"
-      r.doStep q .snapshot
-    | .cleanup =>
-      let r := (r.doStep q .cleanup1).doStep q .setStop
-      { r with inCl := true }
+  | .TS => r.evTS e
+  | .TC child => r.evTC e child
+  | .L => r.evL e
+  | .U => r.evU e
+  | .CW => r.evCW e
+  | .CX => r.evCX e
+  | .LL => r.evLL e
+  | .BS k => r.evBS e k
+  | .CB k => r.evCB e k
+  | .J child => r.evJ e child
+  | .TE => r.evTE e
+  | .NO => r.evNO e rest
+  | .NA => r.evNA e
+  | .cleanupRet => r.evCleanupRet e
+  | .api a => r.evApi e a
 
 def R.run (r : R) : List Ev → R
   | [] => r
@@ -253,7 +383,7 @@ def replay (c : Cfg) (evs : Array Ev) : R :=
 
 /-- the verdict the driver uses: the reconstructed step list together with the state the MODEL's own `exec` computes for
 it from `init c`; `none` if `exec` refuses the list (then the driver reports a divergence) -/
-def checked (c : Cfg) (r : R) : Option (List Step × State) :=
-  (exec (init c) r.steps.reverse).map (fun s => (r.steps.reverse, s))
+def checked (c : Cfg) (r : R) : Option (List LStep × State) :=
+  (execL (init c) r.steps.reverse).map (fun s => (r.steps.reverse, s))
 
 end Tbox.C05.Replay
